@@ -336,6 +336,20 @@ inline void Sweep::decls_and_regions()
             c.same("name", &p->name(), static_cast<const Name*>(P.idents[st])); c.type_is(*p, *tp, "given"); c.eq("position", (long long)p->position(), st); c.eq("level", (long long)p->level(), 3);
             c.opt("initializer", p->initializer(), dv); c.opt("default_value", p->default_value(), dv); c.same("home_region", &p->home_region(), &m->parameters().region()); });
       } }
+   // parameters (and variables, fields) whose initializer is an expression of every kind made so far -- a phantom typed and untyped, a
+   // type, a declaration, a name among them: what is reported as initializer / default value is the very node that was given
+   {  auto* m = lex.make_mapping(*reg, Mapping_level{ 2 });
+      std::map<int, const Expr*> by_kind;
+      for (auto& md : made) if (md.node) if (auto e = dynamic_cast<const Expr*>(md.node)) by_kind.emplace(int(e->category), e);
+      by_kind[-1] = lex.make_phantom(); by_kind[-2] = lex.make_phantom(P.T());
+      int k = 0;
+      for (auto& [cat, e] : by_kind) {
+         auto& t = P.T(); auto* p = m->param(*P.idents[std::size_t(k) % P.idents.size()], t); p->init = e; const int pos = k++;
+         add_node("Mapping::param(default of every kind)", p, Category_code::Parameter, [p, e = e, pos](Ck& c) {
+            c.eq("position", (long long)p->position(), pos); c.opt("initializer", p->initializer(), e); c.opt("default_value", p->default_value(), e); }, false);
+         auto* v = reg->scope.make_var(*P.idents[std::size_t(k) % P.idents.size()], t); v->init = e;
+         add_node("Scope::make_var(initializer of every kind)", v, Category_code::Var, [v, e = e](Ck& c) { c.opt("initializer", v->initializer(), e); }, false);
+      } }
 }
 
 inline void Sweep::forms()
